@@ -39,6 +39,13 @@ type GoBackNConn struct {
 	recvDataChan chan *PacketData
 	sendDataChan chan *PacketData
 
+	// recvBuf holds the chunks of a partially received message. It is
+	// kept across Recv calls so that a Recv that times out in the middle
+	// of a multi-packet message does not drop the chunks it has already
+	// taken off recvDataChan.
+	recvBuf    []byte
+	recvBufMtx sync.Mutex
+
 	log btclog.Logger
 
 	// receivedACKSignal channel is used to signal that the queue size has
@@ -208,10 +215,7 @@ func (g *GoBackNConn) Recv() ([]byte, error) {
 	default:
 	}
 
-	var (
-		b   []byte
-		msg *PacketData
-	)
+	var msg *PacketData
 
 	ticker := time.NewTimer(g.timeoutManager.GetRecvTimeout())
 	defer ticker.Stop()
@@ -225,14 +229,18 @@ func (g *GoBackNConn) Recv() ([]byte, error) {
 		case msg = <-g.recvDataChan:
 		}
 
-		b = append(b, msg.Payload...)
+		g.recvBufMtx.Lock()
+		g.recvBuf = append(g.recvBuf, msg.Payload...)
 
 		if msg.FinalChunk {
-			break
-		}
-	}
+			b := g.recvBuf
+			g.recvBuf = nil
+			g.recvBufMtx.Unlock()
 
-	return b, nil
+			return b, nil
+		}
+		g.recvBufMtx.Unlock()
+	}
 }
 
 // start kicks off the various goroutines needed by GoBackNConn.
